@@ -2,6 +2,6 @@ SPECIFICATION Spec
 CONSTANTS Grid = 7
           MaxTry = 2
           MaxBlocked = 1
-          EagerAdd = FALSE
-INVARIANTS PathOK CancelOK TreesFree Emit
+          EagerAdd = TRUE
+INVARIANT TreesFree
 CHECK_DEADLOCK FALSE
